@@ -93,6 +93,9 @@ func validBody(cmd string, v int, seq int) interface{} {
 		if v == 1 {
 			return map[string]interface{}{"AuthKey": rightKey}
 		}
+		if v == 2 {
+			return map[string]interface{}{"AuthKey": ""}
+		}
 		return map[string]interface{}{"AuthKey": "wrong-key"}
 	case "event":
 		return map[string]interface{}{"Name": "deploy", "Payload": []byte{byte(seq)}, "Coalesce": false}
@@ -151,12 +154,10 @@ func (r *c24run) observe() map[string]interface{} {
 			eff["leave"] = true
 		}
 		r.left = true
-	} else {
-		now := copyTags(r.e.ag.Serf().LocalMember().Tags)
-		if !sameTags(now, r.tags) {
-			eff["tags"] = true
-			r.tags = now
-		}
+	}
+	if now := copyTags(r.e.ag.Serf().LocalMember().Tags); !sameTags(now, r.tags) {
+		eff["tags"] = true
+		r.tags = now
 	}
 	if d := atomic.LoadInt32(&r.e.dials); d != r.dials {
 		eff["join"] = true
